@@ -322,21 +322,24 @@ def shouldRecord (t u v npreIn nsampIn : Int) (mode : EMTMode) : Option Spec :=
   | .twoFull => some { frame := u, npre := npreIn, nsamp := nsampIn }
   | .isolated => if npre ≥ npreIn ∧ npre + npost ≥ nsampIn then some { frame := u, npre := npreIn, nsamp := nsampIn } else none
 
-/-- the search loop of `edgeMultiComputeRecordSpecs` -/
+/-- the search loop of `edgeMultiComputeRecordSpecs`.  The progress guard is always true (a
+trigger found at `i ≥ iFirst` gives `nextI = i + run + 1` with `1 ≤ run ≤ maxN`, `i ≤ iLast`; proved in
+`Lemmas/Emt.lean`); it makes the recursion well founded without a fuel argument. -/
 def emtLoop (raw : List Nat) (first : Int) (zt : ZT) (s : EMT) (iLast maxN : Int)
-    (iFirst : Int) (t u v : Int) (acc : List Spec) (fuel : Nat) : Option (Int × Int × Int × Int × List Spec) :=
-  match fuel with
-  | 0 => none
-  | fuel + 1 =>
-    match findNext raw first zt iFirst iLast s.threshold s.nmonotone maxN s.enableZT iFirst with
-    | none => none
-    | some x =>
-      if !x.found then some (x.nextI, t, u, v, acc) else
+    (iFirst : Int) (t u v : Int) (acc : List Spec) : Option (Int × Int × Int × Int × List Spec) :=
+  match findNext raw first zt iFirst iLast s.threshold s.nmonotone maxN s.enableZT iFirst with
+  | none => none
+  | some x =>
+    if !x.found then some (x.nextI, t, u, v, acc) else
+    if _h : iFirst < x.nextI ∧ x.nextI ≤ iLast + maxN + 1 then
       let t' := u; let u' := v; let v' := x.trig + first
       let acc' := match shouldRecord t' u' v' s.npre s.nsamp s.mode with
         | some sp => acc ++ [sp]
         | none => acc
-      emtLoop raw first zt s iLast maxN x.nextI t' u' v' acc' fuel
+      emtLoop raw first zt s iLast maxN x.nextI t' u' v' acc'
+    else none
+termination_by (iLast + maxN + 2 - iFirst).toNat
+decreasing_by omega
 
 /-- `edgeMultiComputeRecordSpecs` -/
 def emtSpecs (raw : List Nat) (first : Int) (zt : ZT) (s : EMT) : Option (EMT × List Spec) :=
@@ -347,7 +350,7 @@ def emtSpecs (raw : List Nat) (first : Int) (zt : ZT) (s : EMT) : Option (EMT ×
       ({ s.reset with sentinel := true }, if s.enableZT then maxLookback + 1 else maxLookback)
     else (s, iFirst0)
   let iLast : Int := (raw.length : Int) - 1 - maxLookahead
-  match emtLoop raw first zt s1 iLast maxLookahead iFirst s1.t s1.u s1.v [] (raw.length + 2) with
+  match emtLoop raw first zt s1 iLast maxLookahead iFirst s1.t s1.u s1.v [] with
   | none => none
   | some (iF, t, u, v, specs) =>
     let nfi := iF + first
